@@ -137,6 +137,8 @@ class DataView(DataSet):
         tslices = list()
         for uslice, dvslice in zip(user_slices, dvslices):
             if isinstance(uslice, Integral):
+                # a NumPy integer of a narrow type would overflow below
+                uslice = int(uslice)
                 if uslice < 0:
                     tslice = dvslice.stop + uslice
                 else:
